@@ -43,7 +43,15 @@ def showStreams (st : DSt) : String :=
 def step (st : DSt) : List String → DSt × String
   | "read" :: recs => ({ st with logical := st.logical ++ recs.map (fun r => Item.record (parseRec r)) }, "-")
   | ["barrier", id] => ({ st with logical := st.logical ++ [Item.barrier (natOr id)] }, "-")
-  | ["end"] => (st, showStreams st)
+  -- a checkpoint request that arrives while the read is being fetched / in the middle of enqueueing it: by
+  -- `C04.barrier_cut` the barrier still comes after every record of that read
+  | "readbar" :: id :: recs =>
+    ({ st with logical := st.logical ++ recs.map (fun r => Item.record (parseRec r)) ++ [Item.barrier (natOr id)] }, "-")
+  | "midbar" :: id :: recs =>
+    ({ st with logical := st.logical ++ recs.map (fun r => Item.record (parseRec r)) ++ [Item.barrier (natOr id)] }, "-")
+  | ["end"] =>
+    let cuts := (cutsOf st.logical 0).map (fun p => s!"{p.1}:{p.2}")
+    (st, showStreams st ++ " | ck=" ++ (if cuts.isEmpty then "-" else joinWith "," cuts) ++ " cut=ok")
   | _ => (st, "-")
 
 def handle (lines : Array String) (i : Nat) (out : Array String) : Nat × Array String :=
